@@ -309,7 +309,7 @@ def check_summary(pel, data, registry, plugins, note):
         shutil.rmtree(d, ignore_errors=True)
 
 
-@PROP.given('src-fields', lambda tier: case_strategy(tier), quick=1500, thorough=60000, shards_quick=8)
+@PROP.given('src-fields', lambda tier: case_strategy(tier), quick=3000, thorough=60000, shards_quick=8)
 def src_fields(case, note):
     check_pel(case['pel'], case['registry'], case['plugins'], note, case['summary'])
     classify(case['pel'], case['registry'], note)
